@@ -16,7 +16,7 @@ use evalexpr::{Context, ContextWithMutableVariables, DefaultNumericTypes, EmptyC
 pub const OTHERS: [&str; 4] = ["foo", "math::nope", "str", "Typeof"];
 const KINDS: usize = 7;
 const SWITCH: usize = 3;
-const FORMS: usize = 10;
+const FORMS: usize = 12;
 
 fn forms(n: &str) -> Vec<String> {
     vec![
@@ -30,6 +30,8 @@ fn forms(n: &str) -> Vec<String> {
         n.to_string(),
         format!("{} + 1", n),
         format!("{} = 1; {}(1)", n, n),
+        format!("{} true", n),
+        format!("{} 2.5", n),
     ]
 }
 
